@@ -547,6 +547,20 @@ func hunt(o Opts) int {
 			}
 		}
 	}
+	// A, I (round 5): fresh cases of the conversion / iterator-clone streams under other seeds
+	for k := 0; k < 2; k++ {
+		sd := o.Seed*37 + uint64(k) + 5
+		for i := 0; i < len(samePairs); i++ {
+			if ac := regenA(sd, i); ac.Bad != "" {
+				add(Finding{"C", "As-conversion: " + strings.Join(ac.Pairs, ", "), ac.Bad, ac.raw(), ac.At})
+			}
+		}
+		for i := 0; i < 3*len(iterKinds); i++ {
+			if ic := regenI(sd, i); ic.Bad != "" {
+				add(Finding{"I", "iterator clone: " + ic.Kind, ic.Bad, ic.raw(), ic.At})
+			}
+		}
+	}
 	// slice capacity: Append on a sub-slice with spare capacity (not in the model, see ModelS.v)
 	if f := appendCapacityProbe(); f != nil {
 		add(*f)
@@ -595,6 +609,36 @@ func optClass(s string) string { return s }
 
 func replayCase(stream string, raw json.RawMessage, out string) *Finding {
 	switch stream {
+	case "C":
+		var c struct {
+			Seed  uint64 `json:"seed"`
+			Index int    `json:"index"`
+		}
+		json.Unmarshal(raw, &c)
+		ac := regenA(c.Seed, c.Index)
+		w := NewCaseWriter(out, "replay_c", hdrA, "amism", 10)
+		w.Type = "acase"
+		w.Add(ac.Coq(), nil, "replay", true)
+		w.Flush()
+		if ac.Bad != "" {
+			return &Finding{"C", "As-conversion: " + strings.Join(ac.Pairs, ", "), ac.Bad, ac.raw(), ac.At}
+		}
+		return nil
+	case "I":
+		var c struct {
+			Seed  uint64 `json:"seed"`
+			Index int    `json:"index"`
+		}
+		json.Unmarshal(raw, &c)
+		ic := regenI(c.Seed, c.Index)
+		w := NewCaseWriter(out, "replay_i", hdrA, "imism", 10)
+		w.Type = "icase"
+		w.Add(ic.Coq(), nil, "replay", true)
+		w.Flush()
+		if ic.Bad != "" {
+			return &Finding{"I", "iterator clone: " + ic.Kind, ic.Bad, ic.raw(), ic.At}
+		}
+		return nil
 	case "J":
 		var c struct {
 			Seed  uint64 `json:"seed"`
